@@ -366,6 +366,6 @@ func VerifH_C05_CRDTFaults() {
 	vCover("ran")
 	vAssert(vImplies(f.injected > 0, err != nil), "fault-propagates")
 	vAssert(vImplies(f.injected == 0, err == nil), "no-fault-no-error")
-	vAssert(f.count <= f.window, "window-covers-all-store-operations")
+	vBound(f.count <= f.window, "window-covers-all-store-operations")
 	vObserve("ops", f.count)
 }
